@@ -38,7 +38,7 @@ R.contract("Node.stop", params={"self": "Node", "wait_timeout": "int", "force": 
            ghost_modifies=["*MsgQueue.g_put", "*Application.g_stopped"],
            modifies=["self._stopping", "*PeerConnection.state", "*SequenceGenerator._sequence", "*StoppableThread.stopped",
                      "*Socket.closed", "*Event.flag", "dict:self.connections"],
-           props=["C18"])
+           props=["C18", "C12"])
 @R.specfn("own_generator")
 def _own_generator(ex, st, node, conn):
     """ownership instance: a connection's hop-by-hop generator is created in PeerConnection.__init__ and is never the
